@@ -37,6 +37,31 @@ def special_cases(first_id):
         out.append({"id": first_id + 1 + k, "conns": [{"isn": ISNS[k], "cip": "10.0.1.10", "cport": 3000 + k, "dport": port, "stream": req.hex()}],
                     "frames": [{"c": 1, "k": "syn", "n": 0, "psh": False}, {"c": 1, "k": "ack", "n": 0, "psh": False},
                                {"c": 1, "k": "data", "n": len(req), "psh": True}, {"c": 1, "k": "fin", "n": 0, "psh": False}]})
+    # overlapping connections of which an EARLIER one goes away (close completed by the client's ACK, or RST after its
+    # FIN) while a LATER one is still being served: the later one must go on being acknowledged
+    F = lambda c, k, n=0, psh=False: {"c": c, "k": k, "n": n, "psh": psh}
+    sid = first_id + 5
+    for nconn, gone in ((2, [1]), (3, [1]), (3, [2]), (3, [1, 2]), (4, [2, 3])):
+        for how in ("ack", "rst", "ack-silent", "rst-silent"):
+            fr = []
+            for c in range(1, nconn + 1):
+                fr += [F(c, "syn"), F(c, "ack")]
+            for c in range(1, nconn + 1):
+                # "-silent": the connections that go away never sent data (their handlers are still waiting in Read)
+                if not (how.endswith("-silent") and c in gone):
+                    fr.append(F(c, "data", 2, False))
+            how = how.split("-")[0]
+            for c in gone:
+                fr += [F(c, "fin"), F(c, how)]
+            for c in range(1, nconn + 1):
+                if c not in gone:
+                    fr += [F(c, "data", 3, True), F(c, "data", 1460, False), F(c, "fin")]
+            # the connections that go away talk to decoded ports (80, 9200: the protocol handler keeps waiting for a complete
+            # request and the record is dropped as soon as the client has finished its close), the others to either kind
+            out.append({"id": sid, "conns": [{"isn": ISNS[(sid + c) % len(ISNS)], "cip": "10.0.1.%d" % (10 + c), "cport": 4000 + c,
+                                              "dport": ([80, 9200][c % 2] if (c + 1) in gone or (sid + c) % 2 else UNDECODED[c % len(UNDECODED)])}
+                                             for c in range(nconn)], "frames": fr})
+            sid += 1
     return out
 
 
@@ -122,7 +147,7 @@ def run(tier, lab):
             if e["to"] == 0:
                 kinds.append("not-addressed-back")
         if not kinds:
-            kinds.append({"syn": "synack", "ack": "after-ack", "data": "ack-number", "fin": "fin-answer"}[bad["k"]])
+            kinds.append({"syn": "synack", "ack": "after-ack", "data": "ack-number", "fin": "fin-answer", "rst": "after-rst"}[bad["k"]])
         ck.disagree("canarytcp/%s" % kinds[0], "client %s, frames %s: after %s(n=%d) the listener emitted %s" % (
             cn, [(f["c"], f["k"], f["n"]) for f in sc["frames"]], bad["k"], bad["n"], json.dumps(bad["emitted"])[:400]),
             {"scenario": sc, "line": bad})
@@ -130,8 +155,9 @@ def run(tier, lab):
     ck.cov.update({"traces_validated_against_impl": validated, "scenarios": len(scs), "client_frames_injected": sum(len(s["frames"]) for s in scs),
                    "evaluations": len(scs), "distinct_nontrivial": len(scs),
                    "rule": "scenario = TLC-generated client behaviour (1 connection exhaustive to 5 frames, sampled in quick; 2 connections "
-                           "by -simulate) bound to boundary/random ISNs, decoded/undecoded ports, odd and even segment lengths; plus a "
-                           "swapped-port-pair scenario"})
+                           "by -simulate, incl. the client's closing ACK and RST) bound to boundary/random ISNs, decoded/undecoded ports, odd "
+                           "and even segment lengths; plus a swapped-port-pair scenario and 20 overlap scenarios (2-4 connections, an earlier "
+                           "one completes its close or is reset while later ones go on)"})
     ck.sample({"conns": scs[3]["conns"], "frames": scs[3]["frames"], "lines": results[scs[3]["id"]]["lines"][:4]})
     ck.assumptions += ["the listener's initial sequence number is whatever the implementation draws (its wrap boundary is not steerable)",
                        "frames are injected synchronously through hook VerifInject and read back from the transmit ring",
